@@ -205,7 +205,9 @@ def r3(run, ctx):
             else:
                 dv = d_
             run.check('R3', dv is not None and norm_text(dv) in ("self._filename + '.1'",
-                                                                 "'%s.1' % self._filename"),
+                                                                 "'%s.1' % self._filename",
+                                                                 "f'{self._filename!s}.1'",
+                                                                 "f'{self._filename}.1'"),
                       'the active file becomes backup .1', f, n.ast,
                       'the active file is renamed to %s' % (norm_text(dv) if dv is not None else '?'))
     def bc_pos(e):
